@@ -60,7 +60,7 @@ impl Property for C08 {
     }
     fn rule(&self) -> String {
         "a reachable tree state (0..10 generated set/delete/append/set_range operations; for every third case with the persistent backend additionally closed and reopened from disk) followed by 1..3 batch requests drawn from forced shape classes (write-only, remove-only incl. scattered/unsorted/duplicate, removals before/inside/after/interleaved with the written range, empty both, start in {0, mark, near end, cap, cap+1, usize::MAX}, removal >= cap, batch initialisation incl. over-capacity); \
-         entry points: trait override_range on full/optimal/pmtree and RLN::atomic_operation / set_leaves_from / init_tree_with_leaves; after every request every leaf, every subtree root, the root and leaves_set() are compared with the ideal model (effect exactly as documented, or rejected with every observation unchanged; a panic is a violation). \
+         entry points: trait override_range on full/optimal/pmtree and RLN::atomic_operation / set_leaves_from / init_tree_with_leaves; after every request every leaf, every subtree root, the root and leaves_set() are compared with the ideal model (effect exactly as documented, or rejected with every observation unchanged; a panic is a violation). A quarter of the histories have the state read back by a second long-lived thread of the caller (taking turns with the thread that writes). \
          non-trivial = batch with both parts non-empty and a removal outside the written range, or a rejected batch on a non-empty tree; distinct by case content".into()
     }
     fn assumptions(&self) -> Vec<String> {
